@@ -15,7 +15,7 @@ pub fn run(mode: &str, a: &Args) -> i32 {
     }
 }
 
-const KINDS: [(&str, &str); 20] = [
+const KINDS: [(&str, &str); 22] = [
     ("map", "a: 1\n"),
     ("seq", "[1, 2]\n"),
     ("scalar", "hello\n"),
@@ -40,6 +40,10 @@ const KINDS: [(&str, &str); 20] = [
     ("bare_alias", "*nowhere\n"),
     // a type error AFTER alias replay used up the whole (tightened) replay allowance: the next document starts afresh
     ("alias_then_type_err", "a: &x 7\nq: [*x, *x, *x]\nb: [1]\n"),
+    // a failing document closed by `...` and followed by a document WITHOUT its own `---` (two documents in one kind):
+    // the recovery must resynchronise on the implicit document start too
+    ("type_err_end_then_bare", "a: [1]\nb: 2\n...\na: 5\n"),
+    ("ok_end_then_bare", "a: 4\n... # c\nb: 6\n"),
 ];
 
 fn stream_of(seq: &[usize], explicit_first: bool) -> String {
@@ -119,7 +123,7 @@ fn generate(a: &Args) -> i32 {
                 // per-document results, each document parsed on its own
                 let per_doc: Vec<String> = seq.iter().map(|k| run_single(&format!("{}{}", if explicit_first { "---\n" } else { "" }, KINDS[*k].1), ty, &cfg)).collect();
                 let is_nullish = |k: usize| matches!(KINDS[k].0, "empty" | "tilde" | "null");
-                let clean = seq.iter().all(|k| !matches!(KINDS[*k].0, "unterminated" | "syntax" | "with_end" | "alias_prev" | "stray_close" | "bare_alias"));
+                let clean = seq.iter().all(|k| !matches!(KINDS[*k].0, "unterminated" | "syntax" | "with_end" | "alias_prev" | "stray_close" | "bare_alias" | "type_err_end_then_bare" | "ok_end_then_bare"));
                 if clean && seq.iter().zip(&per_doc).all(|(k, r)| is_nullish(*k) || r.starts_with("ok")) {
                     // every non-null document succeeds on its own => batch = list of them, iterator = batch
                     let want: Vec<String> = seq.iter().zip(&per_doc).filter(|(k, _)| !is_nullish(**k)).map(|(_, r)| r[3..].to_string()).collect();
@@ -152,12 +156,13 @@ fn generate(a: &Args) -> i32 {
                 // anchors of an earlier document are never visible
                 if let Some(pos) = seq.iter().position(|k| KINDS[*k].0 == "alias_prev") {
                     let items_before_ok = iter.matches(" ; ok").count();
-                    if multi.starts_with("ok") || items_before_ok > seq[..pos].iter().filter(|k| !is_nullish(**k)).count() + seq[pos + 1..].len() {
+                    let docs_in = |k: usize| if matches!(KINDS[k].0, "type_err_end_then_bare" | "ok_end_then_bare") { 2 } else { 1 };
+                    if multi.starts_with("ok") || items_before_ok > seq[..pos].iter().filter(|k| !is_nullish(**k)).map(|k| docs_in(*k)).sum::<usize>() + seq[pos + 1..].iter().map(|k| docs_in(*k)).sum::<usize>() {
                         fails.push(serde_json::json!({"id": "C11-anchor-visible-across-documents", "what": "an alias to an anchor of an earlier document was accepted", "input": text, "type": ty.tokens(), "observed": multi, "expected": "an error for that document"}));
                     }
                 }
                 // iterator continues after a type-level error: a trailing valid map document must still be delivered
-                if seq.len() >= 2 && KINDS[seq[seq.len() - 1]].0 == "map" && seq[..seq.len() - 1].iter().all(|k| !matches!(KINDS[*k].0, "unterminated" | "syntax" | "with_end" | "stray_close" | "bare_alias")) {
+                if seq.len() >= 2 && KINDS[seq[seq.len() - 1]].0 == "map" && seq[..seq.len() - 1].iter().all(|k| !matches!(KINDS[*k].0, "unterminated" | "syntax" | "with_end" | "stray_close" | "bare_alias" | "ok_end_then_bare")) {
                     let last_ok = iter.rsplit(" ; ").next().map(|s| s.starts_with("ok")).unwrap_or(false);
                     if !last_ok {
                         fails.push(serde_json::json!({"id": "C11-iterator-does-not-resume", "what": "the iterator did not deliver the valid document that follows a type-level error", "input": text, "type": ty.tokens(), "observed": iter, "expected": "last item ok"}));
@@ -171,7 +176,7 @@ fn generate(a: &Args) -> i32 {
     let nt = sink.stats.get("distinct_nontrivial").copied().unwrap_or(0);
     sink.finish(&a.out, "docs", serde_json::json!({
         "distinct_nontrivial": nt,
-        "rule": "every sequence of document kinds up to length 2 (quick: plus a third of length 3; thorough: all of length 3 and a quarter of length 4) over 20 kinds (a type error after alias replay used up a tightened replay allowance, valid map/seq/scalar, empty, ~, null, anchor-defining (scalar anchor; container-only anchor), aliasing an earlier document's anchor, type error after consumed events, type errors raised on a merely PEEKED event (unit given a value, unit variant given a payload), unterminated flow, with `...`, trailing comment, syntax error, duplicate key, documents that fail before producing an event (stray `]`, alias to nothing)), with and without a leading `---`, x {untyped, struct, struct with unit / enum fields} target x {default budget, no budget, max_depth 3, max_total_replayed_events 3}: batch (from_multiple), iterator (read) and single-document entry point vs the model; plus the iterator under max_events 4 / 6 / 7 for one target per stream (per-document event accounting on the normal and on the recovery path); oracle: batch = list of per-document results, iterator = batch when nothing fails, single rejects a second document, anchors invisible across documents, iterator resumes after a type-level error. Non-trivial = streams with more than one document.",
+        "rule": "every sequence of document kinds up to length 2 (quick: plus a third of length 3; thorough: all of length 3 and a quarter of length 4) over 22 kinds (two-document kinds whose second document has no `---` after a `...` (after a type error / after a valid document), a type error after alias replay used up a tightened replay allowance, valid map/seq/scalar, empty, ~, null, anchor-defining (scalar anchor; container-only anchor), aliasing an earlier document's anchor, type error after consumed events, type errors raised on a merely PEEKED event (unit given a value, unit variant given a payload), unterminated flow, with `...`, trailing comment, syntax error, duplicate key, documents that fail before producing an event (stray `]`, alias to nothing)), with and without a leading `---`, x {untyped, struct, struct with unit / enum fields} target x {default budget, no budget, max_depth 3, max_total_replayed_events 3}: batch (from_multiple), iterator (read) and single-document entry point vs the model; plus the iterator under max_events 4 / 6 / 7 for one target per stream (per-document event accounting on the normal and on the recovery path); oracle: batch = list of per-document results, iterator = batch when nothing fails, single rejects a second document, anchors invisible across documents, iterator resumes after a type-level error. Non-trivial = streams with more than one document.",
     }));
     0
 }
